@@ -50,7 +50,7 @@ def gen_dataset(rng, lo, hi, pmax, k=None, degenerate=None):
         return out
     out = []
     for _ in range(k):
-        n = int(rng.integers(2, 7))
+        n = int(rng.integers(2, 12))
         b = rng.uniform(lo, hi, n); p = rng.uniform(0.05 * pmax, pmax, n)
         out.append(np.column_stack([b, b + p]))
     # pin the extent so that it really differs between datasets
@@ -144,7 +144,7 @@ def imager_case(ctx, k, rng):
                 fits_ext.append(e)
             elif op == "transform":
                 e = extents[int(rng.integers(0, len(extents)))]
-                Y = gen_dataset(rng, *e, k=int(rng.integers(1, 4)))
+                Y = gen_dataset(rng, *e, k=int(rng.integers(1, 7)))
                 log.append({"op": op, "n": len(Y)})
                 before = imager_public(P)
                 ctx.ran(2)
@@ -157,6 +157,16 @@ def imager_case(ctx, k, rng):
                 ctx.ran(len(Y))
                 ctx.check("imager: collection mapped element by element, in order", isinstance(o1, list) and len(o1) == len(Y) and
                           all(imgs_close(a, b, 0.0) for a, b in zip(o1, singles)), step=t, n=len(Y))
+                if len(Y) >= 3 and rng.random() < 0.3:
+                    # the same through the parallel branch (threads: no process start-up), any n_jobs
+                    import joblib
+                    nj = int(rng.choice([1, 2, 3]))
+                    with joblib.parallel_backend("threading"):
+                        op_ = P.transform(Y, skew=True, n_jobs=nj)
+                    ctx.ran()
+                    ctx.check("imager: collection mapped element by element, in order", isinstance(op_, list) and len(op_) == len(Y) and
+                              all(imgs_close(a, b, 0.0) for a, b in zip(op_, singles)), step=t, n=len(Y), n_jobs=nj,
+                              sizes=[len(y) for y in Y])
                 if last_fit is not None:
                     fresh = Imager(**{**ctor, "pixel_size": last_fit[1]})
                     fresh.fit(last_fit[0], skew=True)
@@ -257,9 +267,16 @@ def landscaper_case(ctx, k, rng):
                               step=t, live=pub(L), twin=pub(twin), data_extent=e)
                     last_fit = X; fits_ext.append(e)
                 else:
-                    if last_fit is None and ("start" not in fixed or "stop" not in fixed):
-                        continue        # an unfitted transformer has no grid: nothing to compare
                     before = pub(L)
+                    if last_fit is None:
+                        # never fitted: the grid comes from the transformed data itself; whatever it is, a brand-new estimator
+                        # must give the same, and transform must leave the parameters as they were
+                        ctx.ran(2)
+                        o1 = L.transform(X)
+                        ref = Landscaper(**ctor).transform(X)
+                        ctx.check("landscaper: transform repeatable, state untouched", same_out(o1, ref) and before == pub(L),
+                                  step=t, before=before, after=pub(L), unfitted=True)
+                        continue
                     ctx.ran(2)
                     o1 = L.transform(X); mid = pub(L); o2 = L.transform(X)
                     ctx.check("landscaper: transform repeatable, state untouched", same_out(o1, o2) and before == mid == pub(L),
